@@ -224,6 +224,9 @@ RSLICES = {  # name: (Size, MaxTimeout, HasTimeout, CallbackSubmits, UserShutdow
     "crash":       ("Sz12", 0, "FALSE", "FALSE", "FALSE", ["IdsGrow", "@ReturnsUsable"], None, 1, None),
     "crash_shrink": ("Sz21", 1, "TRUE", "FALSE", "FALSE", ["IdsGrow", "@ReturnsUsable"], None, 1, None),
     "crash_d24":   ("Sz12", 0, "FALSE", "FALSE", "FALSE", ["@ReturnsUsable"], "ReturnsUsable", 1, "FALSE"),
+    # grow, a worker the resize spawned dies, shrink again -- nothing but _resize itself can wake the manager up (D27)
+    "grow_crash_shrink":     ("Sz121", 0, "FALSE", "FALSE", "FALSE", ["IdsGrow"], None, 1, None, dict(callers=3)),
+    "grow_crash_shrink_d27": ("Sz121", 0, "FALSE", "FALSE", "FALSE", [], "deadlock", 1, None, dict(callers=3, WakeAfterResize="FALSE")),
 }
 
 
@@ -236,9 +239,12 @@ def run_reusable_slices(ctx):
         size, mt, hast, cb, us, invs, expect = spec[:7]
         maxcrash = spec[7] if len(spec) > 7 else 0
         recheck = (spec[8] if len(spec) > 8 and spec[8] else recheck_code)
+        more = spec[9] if len(spec) > 9 else {}
+        callers = ", ".join('"c%d"' % (i + 1) for i in range(more.get("callers", 2)))
+        wake = more.get("WakeAfterResize", sw.get("WakeAfterResize", "TRUE"))
         fn = "MC_Reusable_gen_%s.cfg" % name
         with open(os.path.join(ctx.work, fn), "w") as fh:
-            fh.write("SPECIFICATION SpecF\nCONSTANTS\n  Callers = {\"c1\", \"c2\"}\n  Size <- %s\n  Pids = {\"p1\", \"p2\", \"p3\", \"p4\"}\n"
+            fh.write("SPECIFICATION SpecF\nCONSTANTS\n  Callers = {" + callers + "}\n  WakeAfterResize = " + wake + "\n  Size <- %s\n  Pids = {\"p1\", \"p2\", \"p3\", \"p4\"}\n"
                      "  MaxTimeout = %d\n  HasTimeout = %s\n  CallbackSubmits = %s\n  UserShutdown = %s\n  SpawnUnderLock = %s\n  MaxCrash = %d\n"
                      "  RecheckAfterWait = %s\n%s\n" % (
                          size, mt, hast, cb, us, under, maxcrash, recheck,
